@@ -23,6 +23,7 @@ mod c17;
 mod exporter;
 mod c20;
 mod c19;
+mod c01;
 
 use engine::Ctx;
 
@@ -117,6 +118,8 @@ fn main() {
         ("C20", Some(p)) => c20::replay(&ctx, p),
         ("C19", None) => c19::run(&ctx),
         ("C19", Some(p)) => c19::replay(&ctx, p),
+        ("C01", None) => c01::run(&ctx),
+        ("C01", Some(p)) => c01::replay(&ctx, p),
         ("C16", None) => c16::run(&ctx),
         ("C16", Some(p)) => c16::replay(&ctx, p),
         _ => {
